@@ -1198,3 +1198,60 @@ func BadIgnoresLoopOutcome(src io.Reader, pw *io.PipeWriter, process procFn, siz
 	_ = GoodReturnsErr2Loop(src, pw, process, size)
 	_ = pw.Close()
 }
+
+// ---- authentication reported through an ok flag ----------------------------
+
+func tryOpen(k key, data []byte, num uint32, last bool) ([]byte, bool) {
+	plain, err := k.aead.Open(data[:0], k.nonce(num, last), data, nil)
+	if err != nil {
+		return nil, false
+	}
+	return plain, true
+}
+
+// tryOpenLax says ok for a stub it never authenticated.
+func tryOpenLax(k key, data []byte, num uint32, last bool) ([]byte, bool) {
+	if len(data) <= 16 {
+		return nil, true
+	}
+	plain, err := k.aead.Open(data[:0], k.nonce(num, last), data, nil)
+	return plain, err == nil
+}
+
+func GoodOkFlagSeg(k key, out io.Writer, data []byte, num uint32, last bool) error {
+	plain, ok := tryOpen(k, data, num, last)
+	if !ok {
+		return errFailed
+	}
+	_, err := out.Write(plain)
+	return err
+}
+
+func BadOkFlagIgnoredSeg(k key, out io.Writer, data []byte, num uint32, last bool) error {
+	plain, _ := tryOpen(k, data, num, last)
+	_, err := out.Write(plain)
+	return err
+}
+
+func BadOkFlagLaxSeg(k key, out io.Writer, data []byte, num uint32, last bool) error {
+	plain, ok := tryOpenLax(k, data, num, last)
+	if !ok {
+		return errFailed
+	}
+	_, err := out.Write(plain)
+	return err
+}
+
+// tryOpen2 computes its ok flag from the error.
+func tryOpen2(k key, data []byte, num uint32, last bool) ([]byte, bool) {
+	plain, err := k.aead.Open(data[:0], k.nonce(num, last), data, nil)
+	return plain, err == nil
+}
+
+func GoodOkFlagExprSeg(k key, out io.Writer, data []byte, num uint32, last bool) error {
+	if plain, ok := tryOpen2(k, data, num, last); ok {
+		_, err := out.Write(plain)
+		return err
+	}
+	return errFailed
+}
